@@ -52,7 +52,11 @@ PROPS = {
         oracle_cases=dict(quick=2, thorough=10),
         assumptions=["non-degenerate meshes, positive section properties, subsonic Mach; generators keep a guard band around the documented "
                      "non-smooth points (wave-drag onset, the 1e-6 N zeroing threshold, zero rotation differences in the tube stress)",
-                     "partials declared method='cs'/'fd' are OpenMDAO's approximations of compute()"],
+                     "partials declared method='cs'/'fd' are OpenMDAO's approximations of compute()",
+                     "the model Jacobian the code is compared with is the dual-number evaluation of the model; its exactness (= the "
+                     "derivative of the real-number model along every curve) is proved primitive by primitive (Lemmas/AD.lean) and "
+                     "for the model functions listed in C01AD*.lean; for the remaining model functions (geometry transformations, "
+                     "moment coefficient, KS aggregation, whole VLM assembly) it rests on the primitive lemmas without a composed theorem"],
     ),
     "C03": dict(
         components=["MomentCoefficient", "VortexMesh", "ViscousDrag", "WaveDrag", "LoadTransfer", "Taper", "ScaleX", "Rotate", "Stretch",
